@@ -62,6 +62,8 @@ type Contract struct {
 	MayPanic bool   // explicit panic in the body is part of the API (not a safety failure)
 	Pure     bool
 	NoOverflow string // reason: overflow obligations not generated (listed as assumption)
+	OnlyUse    map[string][]string // `onlyuse p: callee, callee`: parameter p is handed to these callees and used for nothing else
+	OnlyUseProps map[string][]string
 	Inline   bool   // force inlining instead of using this contract at call sites (contract still verified)
 	Thread   string // thread root name for ownership analysis
 	File     string
@@ -252,7 +254,7 @@ func (db *SpecDB) loadSpecFile(path string, prefix string) error {
 		lines = append(lines, lineT{strings.TrimSpace(t), i + 1})
 	}
 	// join continuation lines: a line that does not start with a directive keyword continues the previous one
-	kw := regexp.MustCompile(`^(contract|stub|rec func|func|ufunc|ghost field|const|axiom|lemma|owner|callsite|strclass|prop|requires|ensures|assumes|invariant|modifies|fresh|loop|trusted|maypanic|pure|nooverflow|inline|thread|use|by induction|ghostset|also|split|before|onrecv|join|recv|backedge)\b`)
+	kw := regexp.MustCompile(`^(contract|stub|rec func|func|ufunc|ghost field|const|axiom|lemma|owner|callsite|strclass|prop|requires|ensures|assumes|invariant|modifies|fresh|loop|trusted|maypanic|pure|nooverflow|inline|thread|use|by induction|ghostset|also|split|before|onrecv|join|recv|backedge|onlyuse)\b`)
 	var joined []lineT
 	for _, l := range lines {
 		if kw.MatchString(l.text) || len(joined) == 0 {
@@ -656,6 +658,32 @@ func (db *SpecDB) loadSpecFile(path string, prefix string) error {
 			cur.Pure = true
 		case t == "inline":
 			cur.Inline = true
+		case strings.HasPrefix(t, "onlyuse "):
+			// onlyuse [@Cxx,Cyy] param: callee, callee
+			if cur == nil {
+				return fail(l, "onlyuse outside contract")
+			}
+			rest := strings.TrimSpace(strings.TrimPrefix(t, "onlyuse "))
+			var props []string
+			if strings.HasPrefix(rest, "@") {
+				i := strings.Index(rest, " ")
+				if i < 0 {
+					return fail(l, "onlyuse [@props] param: callees")
+				}
+				props = strings.Split(rest[1:i], ",")
+				rest = strings.TrimSpace(rest[i+1:])
+			}
+			i := strings.Index(rest, ":")
+			if i < 0 {
+				return fail(l, "onlyuse [@props] param: callees")
+			}
+			if cur.OnlyUse == nil {
+				cur.OnlyUse = map[string][]string{}
+				cur.OnlyUseProps = map[string][]string{}
+			}
+			pn := strings.TrimSpace(rest[:i])
+			cur.OnlyUse[pn] = splitList(rest[i+1:])
+			cur.OnlyUseProps[pn] = props
 		case strings.HasPrefix(t, "nooverflow"):
 			cur.NoOverflow = strings.TrimSpace(strings.TrimPrefix(t, "nooverflow"))
 			if cur.NoOverflow == "" {
